@@ -128,6 +128,46 @@ def mass_model_history(steps, dt, updates=True):
     return True, "ok"
 
 
+def rank_deficient_history(steps, seed=0):
+    """The mass model with one more derived state (weight = 9.81 mass): two states do not depend on their old values, so the process
+    Jacobian has two zero columns and every propagated covariance is rank deficient by TWO - a repeated eigenvalue 0, whose rounding
+    noise a general eigen-solver reports as a conjugate pair with tiny imaginary parts.  Full (correlated) random SPD start covariance,
+    random step lengths, two sensors.  No step may be refused; every covariance symmetric PSD relative to its magnitude."""
+    import numpy as np
+    from replay import shim
+
+    py = shim.install()
+    ui = native.repo_import("formak.ui")
+    dts = ui.Symbol("dt")
+    tp = {k: ui.Symbol(k) for k in ["mass", "z", "v", "a", "weight"]}
+    thrust = ui.Symbol("thrust")
+    state_model = {tp["mass"]: tp["mass"], tp["z"]: tp["z"] + dts * tp["v"], tp["v"]: tp["v"] + dts * tp["a"], tp["a"]: -9.81 * tp["mass"] + thrust, tp["weight"]: 9.81 * tp["mass"]}
+    model = ui.Model(dt=dts, state=set(tp.values()), control={thrust}, state_model=state_model)
+    ekf = py.compile_ekf(model, {thrust: 1.0}, {"simple": {"v": tp["v"]}, "height": {"z": tp["z"]}}, {"simple": {"v": 1.0}, "height": {"z": 0.25}}, config={"innovation_filtering": None})
+    rng = np.random.default_rng(seed + 9)
+    for start in range(3):
+        A = rng.normal(size=(5, 5))
+        cov = ekf.Covariance.from_data(A @ A.T + 0.1 * np.eye(5))
+        state = ekf.State(mass=1.0, z=0.5 * start, v=0.1, a=-0.2, weight=9.81)
+        for i in range(steps):
+            dt = float(rng.uniform(0.005, 0.1))
+            try:
+                state, cov = ekf.process_model(dt, state, cov, ekf.Control(thrust=float(rng.uniform(8.0, 11.0))))
+                if i % 3 == 2:
+                    state, cov = ekf.sensor_model(state, cov, sensor_key="simple", sensor_reading=ekf.make_reading("simple", v=float(rng.normal())))
+                if i % 5 == 4:
+                    state, cov = ekf.sensor_model(state, cov, sensor_key="height", sensor_reading=ekf.make_reading("height", z=float(rng.normal())))
+            except AssertionError as e:
+                w = np.linalg.eigvalsh((cov.data + cov.data.T) / 2)
+                return False, f"start {start}: refused at step {i + 1}: {(str(e).splitlines() or [type(e).__name__])[0][:120]}; last accepted covariance has eigenvalues in [{w.min():.3e}, {w.max():.3e}]"
+            c = cov.data
+            w = np.linalg.eigvalsh((c + c.T) / 2)
+            scale = max(abs(w).max(), 1e-300)
+            if not np.allclose(c, c.T, rtol=0, atol=1e-9 * scale) or w.min() < -1e-9 * scale:
+                return False, f"start {start}, step {i + 1}: covariance not symmetric PSD relative to magnitude (lam_min {w.min():.3e}, scale {scale:.3e})"
+    return True, "ok"
+
+
 PATTERN = ["proc", "v", "proc", "proc", "z", "v", "proc", "j", "proc", "z", "j", "v", "proc"]  # j: a sensor with two CORRELATED readings
 
 
@@ -341,6 +381,14 @@ def check(run):
     if not fails:
         histories += 1
         run.native_runs += 1
+        rsteps = 120 if run.tier == "thorough" else 40
+        ok, why = rank_deficient_history(rsteps, run.seed)
+        if not ok:
+            fails += 1
+            run.findings.append(Finding("C09.py.history.rank_deficient_model", "rank-deficient-refused", f"mass model with a derived weight state (covariances rank deficient by two): {why}", {"language": "python", "inputs": {"model": "rank_deficient", "steps": rsteps, "seed": run.seed}, "oracle_verdict": why}, True))
+    if not fails:
+        histories += 1
+        run.native_runs += 1
         ok, why = singular_history(400 if run.tier == "thorough" else 80, 0.1)
         if not ok:
             fails += 1
@@ -376,6 +424,10 @@ def replay_file(payload):
     if inp.get("model") == "mass":
         ok, why = mass_model_history(inp["steps"], inp["dt"])
         print("replay mass model history:", why)
+        return ok
+    if inp.get("model") == "rank_deficient":
+        ok, why = rank_deficient_history(inp["steps"], inp.get("seed", 0))
+        print("replay rank-deficient history:", why)
         return ok
     if inp.get("model") == "singular":
         ok, why = singular_history(inp["steps"], inp["dt"])
